@@ -209,3 +209,103 @@ func FuzzNormalForm(f *testing.F) {
 	}
 	f.Fuzz(rapid.MakeFuzz(runCase))
 }
+
+// ---------------------------------------------------------------------------
+// Documents built by shape: very deep and very large ones (see doc/shapes.go). The grammar-sized
+// documents above never come near a limit on nesting or size; a well-formed document beyond such a
+// limit must still parse to its normal form, whole.
+
+var recDeep = ev.New("TestPropDeepDocuments", "well-formed documents nested 1-320 levels deep (nested groups and / or data inside an unknown field or plugin config; half of the depths within 6 of a round number), ending in every shorthand that normalisation rewrites: Parse returns no error or warning and both marshalled forms equal the normal-form model of the document; non-trivial = deeper than 40 levels; distinct by text")
+
+func TestPropDeepDocuments(t *testing.T) {
+	ev.Check(t, 300, 8000, func(t *rapid.T) {
+		dd := doc.GenDeep(t)
+		meaning, err := gt.FromYAML(dd.Text)
+		if err != nil {
+			t.Fatalf("harness: %v", err)
+		}
+		ex := doc.NF(meaning, func(s string) (string, bool) { c, ok := dd.Canon[s]; return c, ok })
+		if ex.Excluded != "" {
+			recDeep.Excluded("excluded: " + ex.Excluded)
+			return
+		}
+		if err := checkLeg("YAML", dd.Text, ex, true); err != nil {
+			t.Fatalf("%v\n---- document (depth %d) ----\n%s", err, dd.Depth, dd.Text[:min(len(dd.Text), 600)])
+		}
+		recDeep.Case(ev.HashBytes(dd.Text), dd.Depth > 40, dd.Classes()...)
+		recDeep.MaybeSample(dd.Depth > 40, func() any {
+			return map[string]any{"depth": dd.Depth, "groups": dd.Groups, "data_levels": dd.DataLevels, "tail": dd.Tail}
+		})
+	})
+}
+
+var recLarge = ev.New("TestPropLargeDocuments", "well-formed documents of 64 KiB - 16 MiB (bulk in plain, literal-block or double-quoted command scalars or in very many short steps, further steps after the bulk): Parse returns no error or warning and the JSON and YAML output hold exactly the steps written, in order, each command text byte for byte, plus the env block; non-trivial = larger than 1 MiB; distinct by size, shape and step count")
+
+func TestPropLargeDocuments(t *testing.T) {
+	ev.Check(t, 10, 200, func(t *rapid.T) {
+		ld := doc.GenLarge(t)
+		p, err := pipeline.Parse(strings.NewReader(ld.Text))
+		if err != nil || p == nil {
+			t.Fatalf("Parse of a well-formed %d-byte document (shape %d, %d steps) returned %v", len(ld.Text), ld.Shape, len(ld.Want), err)
+		}
+		check := func(out string, root *gt.Node) {
+			steps, ok := root.Get("steps")
+			if !ok || steps.Kind != gt.Seq || len(steps.Items) != len(ld.Want) {
+				n := -1
+				if ok {
+					n = len(steps.Items)
+				}
+				t.Fatalf("%s output of a %d-byte document (shape %d) holds %d steps, the document %d", out, len(ld.Text), ld.Shape, n, len(ld.Want))
+			}
+			for i, w := range ld.Want {
+				it := steps.Items[i]
+				if w == "\x00wait" {
+					if it.Kind != gt.Str || it.S != "wait" {
+						t.Fatalf("%s output: step %d is %s, the document says `wait`", out, i, gt.Show(it)[:min(len(gt.Show(it)), 200)])
+					}
+					continue
+				}
+				c, has := it.Get("command")
+				if it.Kind != gt.Map || !has || c.Kind != gt.Str || len(it.Keys) != 1 {
+					t.Fatalf("%s output: step %d is not {command: ...}", out, i)
+				}
+				if c.S != w {
+					d := 0
+					for d < len(w) && d < len(c.S) && w[d] == c.S[d] {
+						d++
+					}
+					t.Fatalf("%s output: command of step %d differs from the document's (lengths %d vs %d, first difference at byte %d)", out, i, len(c.S), len(w), d)
+				}
+			}
+			if strings.HasPrefix(ld.Text, "env:") {
+				e, ok := root.Get("env")
+				if v, has := e.Get("A"); !ok || !has || v.S != "b" {
+					t.Fatalf("%s output: the env block is not {A: b}", out)
+				}
+			}
+		}
+		jb, err := json.Marshal(p)
+		if err != nil {
+			t.Fatalf("json.Marshal: %v", err)
+		}
+		jn, err := gt.FromJSON(jb)
+		if err != nil {
+			t.Fatalf("JSON output does not parse: %v", err)
+		}
+		check("JSON", jn)
+		if len(ld.Text) <= 1<<22 {
+			yb, err := yaml.Marshal(p)
+			if err != nil {
+				t.Fatalf("yaml.Marshal: %v", err)
+			}
+			yn, err := gt.FromYAML(yb)
+			if err != nil {
+				t.Fatalf("YAML output does not parse: %v", err)
+			}
+			check("YAML", yn)
+		}
+		nt := len(ld.Text) > 1<<20
+		recLarge.Case(ev.Hash(ld.Size, ld.Shape, len(ld.Want)), nt, ld.Classes()...)
+		recLarge.MaybeSample(nt, func() any { return map[string]any{"bytes": len(ld.Text), "shape": ld.Shape, "steps": len(ld.Want)} })
+	})
+}
